@@ -229,11 +229,14 @@ fn inline_record<T: DiffableStr + ?Sized>(case: i64, alg: Algorithm, mode: &str,
                     json!([tagnum(c.tag()), c.old_index().map(|x| x as i64).unwrap_or(-1),
                            c.new_index().map(|x| x as i64).unwrap_or(-1),
                            Value::Array(c.values().iter().map(|(e, s)| json!([if *e {1} else {0}, bytes_json(s.as_bytes())])).collect()),
-                           c.missing_newline()])
+                           c.missing_newline(),
+                           // beyond the listed properties: what the inline change prints
+                           bytes_json(c.to_string().as_bytes())])
                 })
                 .collect();
             rec::remove_clock();
-            per.push(json!({"tag": rec::op_json(op)[0], "plain": plain, "inline": inl}));
+            per.push(json!({"tag": rec::op_json(op)[0], "plain": plain, "inline": inl,
+                "utf8": std::str::from_utf8(old.as_bytes()).is_ok() && std::str::from_utf8(new.as_bytes()).is_ok()}));
         }
         (ops_json(diff.ops()), per)
     });
